@@ -404,6 +404,22 @@ def replay(cex):
     block = prep(case)
     K = case['K']
     mv = cex.get('model', {})
+    if uses_wide_mul(block) and not cex.get('_pattern'):
+        # products wider than 4x4 bits are uninterpreted in the query: the model's operand values need not be the ones whose
+        # REAL product exposes the disagreement. The counterexample is confirmed by the real simulators on the model's inputs
+        # or on boundary operand patterns (all ones, top bit, alternating bits), whichever shows it first.
+        first = replay(dict(cex, _pattern='model'))
+        if first[0]:
+            return first
+        ins = sorted(block.wirevector_subset(pyrtl.Input), key=lambda w: w.name)
+        pats = [lambda w, t: w.bitmask, lambda w, t: 1 << (w.bitwidth - 1), lambda w, t: 0xAAAAAAAAAAAAAAAAAAAAAAAAAAAAAAAAAAAAAAAAAAAAAAAAAA & w.bitmask,
+                lambda w, t: (w.bitmask >> 1) if t % 2 else w.bitmask, lambda w, t: w.bitmask ^ (1 << 64) if w.bitwidth > 64 else w.bitmask - 1]
+        for n, pat in enumerate(pats):
+            mv2 = dict(mv, inputs={w.name: {str(t): pat(w, t) for t in range(K)} for w in ins})
+            res = replay(dict(cex, model=mv2, _pattern='p%d' % n))
+            if res[0]:
+                return res[0], 'reproduced on a boundary operand pattern (the query abstracts wide products):\n' + res[1]
+        return first
     if case['sim'] == 'compiled':
         regs, mems = init_values(case, block)
         mv = dict(mv, regs=regs, mems={k: {str(a): x for a, x in d.items()} for k, d in mems.items()})
